@@ -466,7 +466,8 @@ def key_plan(ctx, m, level):
 
 
 def classify(op, ck, rk, m, nrows):
-    """finding tags decided from the INPUT alone"""
+    """finding tags from the INPUT class; cases() then keeps a tag only when the observed outcome is the RECORDED kind
+    (FINDING_OUTCOME): another failure on the same input is not excused"""
     tags = {}
     cps, rps = ck.positions(m), rk.positions(nrows)
     # list keys with negative positions out of positional order: fixed by c80a0ec, regression cases now
@@ -956,21 +957,80 @@ def assign_bloc_coordinate_cases(ctx):
                             'call': 'f.assign.bloc[key](coordinate Series)' if vname == 'series' else 'f.assign.bloc[key].apply(reverse)',
                             'key': np.array(mask).T.tolist(), 'observed': 'raises ' + type(err).__name__ if err is not None else out.values.tolist()},
                            s=sterm, py_fail=None if before == after else 'receiver changed by f.assign.bloc',
-                           tags=bloc_tags(vname, 'array', layout, mask), nontrivial=any(any(c) for c in mask))
+                           tags=bloc_tags(vname, 'array', layout, mask, bloc_outcome(f, out, err, layout, mask, mask, vmat)),
+                           nontrivial=any(any(c) for c in mask))
 
 
 F_BLOCBLOCK = 'C08-bloc-assign-coerces-whole-block'
 
 
-def bloc_tags(vname, kname, layout, kmask):
-    """finding class from the input: the key addresses some but not all columns of one multi-column block"""
+def _same_cell(a, b):
+    if a is None or b is None:
+        return a is b
+    try:
+        if a != a and b != b:
+            return True
+    except Exception:  # noqa
+        pass
+    try:
+        return bool(a == b) and (isinstance(a, (bool, np.bool_)) == isinstance(b, (bool, np.bool_)) or not isinstance(a, (bool, np.bool_, str)) )
+    except Exception:  # noqa
+        return False
+
+
+def bloc_outcome(f, out, err, layout, kmask, emask, vmat):
+    """KIND of the observed outcome of a bloc assignment, for the known-finding discriminator:
+    'dtype'  = returned, labels and name kept, EVERY cell right (vmat where emask, the old cell elsewhere), and the only
+               deviation is the recorded one: a column WITHOUT any True in the key changed dtype while sitting in a block
+               that also holds an addressed column (whole-block cast);
+    'ok'     = returned and nothing deviates;  'raises:<Class>';  'other' = anything else (wrong cells, labels, shape ...)"""
+    if err is not None:
+        return 'raises:' + type(err).__name__
+    try:
+        if list(out.index.values) != list(f.index.values) or list(out.columns.values) != list(f.columns.values) or out.name != f.name:
+            return 'other'
+        oc, fc = frame_columns(out), frame_columns(f)
+        if len(oc) != len(fc):
+            return 'other'
+        nrows = len(f.index)
+        for j in range(len(fc)):
+            for i in range(nrows):
+                want = vmat[j][i] if emask[j][i] else fc[j][i]
+                got = oc[j][i]
+                if not _same_cell(got.item() if hasattr(got, 'item') else got, want.item() if hasattr(want, 'item') else want):
+                    return 'other'
+        # blocks that are partly addressed by the key
+        partly = set()
+        pos = 0
+        for w, _ in layout:
+            hit = [any(kmask[j]) for j in range(pos, pos + w)]
+            if any(hit) and not all(hit):
+                partly.update(j for j in range(pos, pos + w) if not any(kmask[j]))
+            pos += w
+        changed = {j for j in range(len(fc)) if not any(kmask[j]) and oc[j].dtype != fc[j].dtype}
+        if not changed:
+            return 'ok'
+        return 'dtype' if changed <= partly else 'other'
+    except Exception:  # noqa
+        return 'other'
+
+
+def bloc_tags(vname, kname, layout, kmask, outcome=None):
+    """the known finding 'whole block cast' is claimed only for its input class (the key addresses some but not all columns
+    of one multi-column block) AND its recorded outcome kind (every cell right, only the dtype of unaddressed columns of
+    such a block differs): any other failure on the same input stays a violation"""
     tags = {'op': 'assign', 'form': 'bloc', 'value': vname, 'key': kname}
     pos = 0
+    in_class = False
     for w, _ in layout:
         hit = [any(kmask[j]) for j in range(pos, pos + w)]
         if any(hit) and not all(hit):
-            tags['finding'] = F_BLOCBLOCK
+            in_class = True
         pos += w
+    if outcome is not None:
+        tags['outcome'] = outcome
+    if in_class and outcome == 'dtype':
+        tags['finding'] = F_BLOCBLOCK
     return tags
 
 
@@ -1031,7 +1091,7 @@ def assign_bloc_cases(ctx):
                                 'key': np.array(mask).T.tolist(), 'value': vname,
                                 'observed': 'raises ' + type(err).__name__ if err is not None else out.values.tolist()},
                                m=mterm, s=sterm, py_fail=None if before == after else 'receiver changed by f.assign.bloc',
-                               tags=bloc_tags(vname, kname, layout, eff_mask),
+                               tags=bloc_tags(vname, kname, layout, eff_mask, bloc_outcome(f, out, err, layout, eff_mask, emask, vmat_)),
                                nontrivial=any(any(c) for c in emask))
 
 
@@ -1584,12 +1644,24 @@ def assign_value_relations_cases(ctx):
                             out, err = call(lambda: f.assign.bloc[karg](vf))
                             after = snapshot(f)
                             problems = [] if before == after else ['receiver changed by f.assign.bloc']
-                            tags = bloc_tags('frame', 'array', layout, kmask)
+                            tags = bloc_tags('frame', 'array', layout, kmask, bloc_outcome(f, out, err, layout, kmask, emask, vmat))
                             tags['rel'] = rel_r + '/' + rel_c
+                            # the caller's key, as a case of its own: the known finding is claimed only for its input class (a
+                            # writeable key that is True where the value Frame has no cell) AND its recorded outcome (exactly those
+                            # entries were cleared to False, nothing else changed, the call returned)
+                            key_problem = None
+                            key_tags = {'op': 'assign', 'form': 'bloc', 'value': 'frame', 'check': 'caller-key', 'rel': rel_r + '/' + rel_c}
                             if not np.array_equal(karg, key0):
-                                problems.append('the caller\'s Boolean key array was modified in place')
-                            if any(kmask[j][i] and not has(i, j) for i in range(nrows) for j in range(m)) and 'finding' not in tags:
-                                tags['finding'] = F_BLOCKEY     # by construction: a writeable key that is True where the value Frame has no cell
+                                key_problem = 'the caller\'s Boolean key array was modified in place'
+                                cleared_exactly = all(bool(karg[i, j]) == (kmask[j][i] and has(i, j)) for i in range(nrows) for j in range(m))
+                                key_tags['outcome'] = 'key-cleared-where-value-missing' if (err is None and cleared_exactly) else 'other'
+                                if any(kmask[j][i] and not has(i, j) for i in range(nrows) for j in range(m)) and key_tags['outcome'] == 'key-cleared-where-value-missing':
+                                    key_tags['finding'] = F_BLOCKEY
+                            yield Case(f'api:frame.assign.bloc(caller key: labels {rel_r}/{rel_c})',
+                                       {'pool': pname, 'columns': m, 'layout': zoo.layout_str(layout), 'call': f'k = {kname} writeable Boolean array; f.assign.bloc[k](value Frame); k',
+                                        'value_index': [str(x) for x in ridx], 'value_columns': [str(x) for x in cidx],
+                                        'observed': karg.tolist()},
+                                       py_fail=key_problem, tags=key_tags)
                             ctx.count(f'relations:bloc-frame:{rel_r}/{rel_c}', 'outcome:' + ('ok' if err is None else lit.err_class(err)))
                             klit = lit.lst([lit.lst([lit.b(x) for x in col]) for col in kmask])
                             mlit = lit.lst([lit.lst([lit.b(x) for x in col]) for col in emask])
@@ -1797,8 +1869,15 @@ def hierarchy_cases(ctx):
         if err is None and not py_fail and out.name != wname:
             py_fail = f'IndexHierarchy.{nm}: name {out.name!r}, expected {wname!r}'
         ih_tags = {'op': nm.split('(')[0], 'container': 'index_hierarchy'}
-        if nm.startswith('astype'):
-            ih_tags['finding'] = F_IHASTYPE         # by construction: astype of a NAMED IndexHierarchy
+        if nm.startswith('astype') and err is None:
+            # input class: astype of a NAMED IndexHierarchy; recorded outcome: the labels are right and the name is None
+            want_py = [(a, float(b)) for a, b in tups] if '(float)' in nm else tups
+            got_py = [tuple(x) for x in out.__iter__()]
+            kind = (float, np.floating) if '(float)' in nm else (int, np.integer)
+            labels_right = got_py == want_py and all(isinstance(x[1], kind) and not isinstance(x[1], (bool, np.bool_)) for x in got_py)
+            ih_tags['outcome'] = 'name-dropped' if (labels_right and out.name is None) else 'other'
+            if ih_tags['outcome'] == 'name-dropped':
+                ih_tags['finding'] = F_IHASTYPE
         ctx.count('index_hierarchy.' + nm.split('(')[0].split('[')[0])
         obs = f'(Ok {lit.vlist(lit.labels(out))})' if err is None else f'(Err {lit.s(lit.err_class(err))})'
         yield Case('api:index_hierarchy.' + nm.split('(')[0].split('[')[0], {'call': 'ih.' + nm, 'observed': 'raises ' + type(err).__name__ if err is not None else [str(x) for x in lit.labels(out)]},
@@ -2170,7 +2249,24 @@ IMPORTS = ('Require Import SF.Prelude SF.PySlice SF.Dtype SF.Value SF.PyDyn SF.B
            'Definition c08_resolve (a b : dtype) : dtype := match resolve_dtype (PDtype a) (PDtype b) with PDtype r => r | _ => DObj end.')
 
 
+# recorded KIND of outcome of the known findings that are exception-shaped: a tag set from the input class survives only
+# when the implementation raised exactly this class (the others compute their outcome where they are tagged)
+FINDING_OUTCOME = {F_DROPALL: ('raises:ErrorInitFrame',), F_ZERO: ('raises:ErrorInitTypeBlocks',), F_ASTYPEBOOL: ('raises:ValueError',)}
+
+
 def cases(ctx):
+    for c in _all_cases(ctx):
+        fid = c.tags.get('finding')
+        if fid in FINDING_OUTCOME:
+            obs = c.desc.get('observed')
+            outcome = ('raises:' + obs[len('raises '):]) if isinstance(obs, str) and obs.startswith('raises ') else 'returns'
+            c.tags['outcome'] = outcome
+            if outcome not in FINDING_OUTCOME[fid]:
+                c.tags['finding_not_claimed'] = c.tags.pop('finding')     # same input class, a DIFFERENT outcome: not excused
+        yield c
+
+
+def _all_cases(ctx):
     yield from kernel_cases(ctx)
     yield from walk_kernel_cases(ctx)
     yield from drop_mask_cases(ctx)
